@@ -7,7 +7,7 @@
 //!    Occurrence: `text/kind/states/lasign/lakind/latext` (kind `l` `".."`, `x` `/../`, `r` `'..'`;
 //!    states `-` | `0.1`; lasign `-` | `p` | `n`). Reply: `<ordered terminals> <index per query>`
 //!    (`x`: the `.unwrap()` panicked).
-//!  * `tid <par> <k> <grammar> <directives> <skips> <scan-facts> <sentences> <A> <M> <S>` —
+//!  * `tid <par> <k> <grammar> <directives> <skips> <stale-directives> <stale-skips> <scan-facts> <sentences> <A> <M> <S>` —
 //!    translation validation per grammar: the transformed grammar with full terminal occurrences,
 //!    the `%on`/`%skip` directives of the PAR text resolved to productions of the transformed grammar,
 //!    what the scanner built from the generated `scanner!` text does with each plain terminal's own
@@ -247,6 +247,55 @@ fn enc_directives(p: &Pipe) -> (String, String) {
     (if tr.is_empty() { "~".into() } else { tr.join(";") }, if sk.is_empty() { "~".into() } else { sk.join(";") })
 }
 
+/// The numbers `to_grammar_config.rs` computes for the directives: primary non-terminal looked up in
+/// the UNTRANSFORMED grammar, index function of the UNTRANSFORMED grammar (used to attribute failures
+/// to the listed finding F26: these numbers are kept although the transformation may renumber).
+fn enc_directives_stale(p: &Pipe) -> (String, String) {
+    let cfg = &p.pre_cfg;
+    let ti = cfg.get_terminal_index_function();
+    let names: Vec<&str> = p.gc.scanner_configurations.iter().map(|s| s.scanner_name.as_str()).collect();
+    let num = |nt: &str| -> usize {
+        cfg.pr
+            .iter()
+            .find_map(|pr| {
+                if pr.get_n_str() == nt && pr.get_r().len() == 1 {
+                    match &pr.get_r()[0] {
+                        Symbol::T(Terminal::Trm(t, k, _, _, _, _, l)) => Some(ti.terminal_index(t, *k, l) as usize),
+                        _ => None,
+                    }
+                } else {
+                    None
+                }
+            })
+            .unwrap_or(999_999)
+    };
+    let tr: Vec<String> = p
+        .directives
+        .iter()
+        .map(|d| {
+            if d.trans.is_empty() {
+                "-".to_string()
+            } else {
+                d.trans
+                    .iter()
+                    .map(|(nt, kind, target)| {
+                        let tg = names.iter().position(|n| n == target).unwrap_or(999_999);
+                        match kind {
+                            0 => format!("{}:e:{tg}", num(nt)),
+                            1 => format!("{}:u:{tg}", num(nt)),
+                            _ => format!("{}:o", num(nt)),
+                        }
+                    })
+                    .collect::<Vec<_>>()
+                    .join("+")
+            }
+        })
+        .collect();
+    let sk: Vec<String> =
+        p.directives.iter().map(|d| show_nats(&d.skips.iter().map(|nt| num(nt)).collect::<Vec<_>>())).collect();
+    (if tr.is_empty() { "~".into() } else { tr.join(";") }, if sk.is_empty() { "~".into() } else { sk.join(";") })
+}
+
 fn plain_text(t: &str, k: TerminalKind) -> bool {
     if t.is_empty() || t.len() > 40 {
         return false;
@@ -419,12 +468,13 @@ pub fn make_tid(par: &str, k: usize) -> Option<String> {
         let s = desc_source(&p);
         let g = enc_grammar(&p).unwrap_or_else(|e| format!("err:{}", enc(&e)));
         let (tr, sk) = enc_directives(&p);
+        let (tr_old, sk_old) = enc_directives_stale(&p);
         let facts = match &s {
             Ok(s) => scan_facts(&p, s),
             Err(_) => "-".to_string(),
         };
         let sents = sentences(&p, 60, 80);
-        format!("{g} {tr} {sk} {facts} {sents} {} {} {}", enc_desc(&a), enc_desc(&m), enc_desc(&s))
+        format!("{g} {tr} {sk} {tr_old} {sk_old} {facts} {sents} {} {} {}", enc_desc(&a), enc_desc(&m), enc_desc(&s))
     }))
     .unwrap_or_else(|_| "panic".to_string());
     Some(format!("tid {} {} {}", enc(par), k, body))
@@ -451,7 +501,7 @@ pub fn run_case(w: &[&str]) -> Option<String> {
     match w.first().copied() {
         Some("termidx") => run_termidx(w),
         Some("tid") => {
-            if w.len() != 3 + 5 + 33 {
+            if w.len() != 3 + 7 + 33 {
                 return None;
             }
             let par = dec(w[1])?;
